@@ -833,7 +833,7 @@ func c13FieldInventory(p *load.Prog, r *oblig.Run) {
 // itself - a key computed from the tag (its descriptive name) lets two different tags share one entry, so a read for
 // one tag changes what a later read for the other returns.
 func c13TagCacheKey(p *load.Prog, r *oblig.Run) {
-	r.Rule("R13.f", "the children-by-tag cache is keyed by the tag itself", 2)
+	r.Rule("R13.f", "the children-by-tag cache is keyed by the tag itself", 1)
 	fn := p.Func(load.PkgRoot, "NodesWithTag")
 	if fn == nil || len(fn.Params) != 2 {
 		r.Add("R13.f", "anchor", "-", "anchor").Unknown("NodesWithTag(node, tag) not found")
